@@ -12,7 +12,7 @@ def scenarios(rng: random.Random, n: int, thorough: bool):
     scs = []
     for i in range(n):
         mode = ["vertical", "downward", "slow", "zero_velocity", "high_station", "beyond_reach", "drop_limit", "alt_limit",
-                "vel_limit", "simultaneous", "start_below_floor"][i % 11]
+                "vel_limit", "simultaneous", "start_below_floor", "vacuum_lob"][i % 12]
         p = shots.gen_shot(rng, winds=rng.choice([0, 1]), look=0.0)
         lim = {}
         rng_ft = rng.choice([900.0, 3000.0])
@@ -45,6 +45,15 @@ def scenarios(rng: random.Random, n: int, thorough: bool):
             else:
                 p["sight_in"] = 3.0
                 lim = {"cMaximumDrop": -0.1}
+        elif mode == "vacuum_lob":
+            # no air at all (the Vacuum atmosphere), a lob that leaves the neighbourhood of the station altitude: within reach
+            # (returns) or not (stopped by the drop / altitude floor) - finite inputs, downward gravity: it ends one way or the other
+            p["vacuum"] = True
+            p["winds"] = []
+            p["mv_fps"] = rng.choice([300.0, 600.0])
+            p["rel_rad"] = math.radians(rng.choice([30.0, 45.0, 60.0]))
+            rng_ft = rng.choice([1500.0, 60000.0])
+            lim = rng.choice([{}, {"cMaximumDrop": -200.0}, {"cMinimumAltitude": p["alt_ft"] - 100.0}])
         elif mode == "drop_limit":
             lim = {"cMaximumDrop": rng.choice([0.0, -1.0, -5.5, -100.0])}
         elif mode == "alt_limit":
@@ -112,7 +121,7 @@ def run(chk: core.Check, replay=None) -> None:
     loopsuite.design(chk, "C04")
     lattice.replay(chk, "C04", thorough)          # exact spec -> code replay of whole fire() results
     rng = random.Random(chk.seed * 19 + 4)
-    scs = scenarios(rng, 165 if thorough else 22, thorough)
+    scs = scenarios(rng, 168 if thorough else 24, thorough)
     outs, pairs = [], []
     tid = 0
     for sc in scs:
@@ -160,7 +169,7 @@ def run(chk: core.Check, replay=None) -> None:
     o = next((x for x in outs if x["outcome"] == "RangeError"), outs[0])
     chk.sample({"scenario": o["sc"], "outcome": o["outcome"], "reason": o.get("reason"), "tail_lines": o["lines"][-3:]})
     chk.require_strata(["limit_Vel", "limit_Drop", "limit_Alt", "completed", "paired_with_relaxed_limit", "mode_vertical",
-                        "mode_zero_velocity", "mode_beyond_reach", "mode_start_below_floor", "several_limits_in_one_step"])
+                        "mode_zero_velocity", "mode_beyond_reach", "mode_start_below_floor", "mode_vacuum_lob", "several_limits_in_one_step"])
     chk.exhaustive = False
     chk.rule.append("design: Integrator.tla C04_* with every subset of violated limits per step and liveness under the gravity assumption; "
                     "code->spec: seeded real shots (vertical, downward, slow, zero-velocity, high station, beyond reach, each limit, "
